@@ -1,14 +1,806 @@
-//! C10 — not built yet.
-use crate::engine::{Ctx, Property};
+//! C10 — sfnt, TTC and WOFF containers return exactly the stored tables.
+//! Forward construction: container model → `fontgen::container` encoders (free layout choices)
+//! → `FontData::read` / `table_provider(i)` / `OpenTypeFont` / `WoffFont` → compared with the model.
+
+use crate::engine::util::{mix64, pick};
+use crate::engine::{fixtures, CaseResult, Ctx, Fail, Property, Rec};
+use crate::fontgen::container::{
+    encode_sfnt, encode_woff, Blob, Comp, DataOrder, Member, Model, SfntLayout, WoffLayout, TTCF,
+};
+use crate::fontgen::sfnt::{search_fields, Tag, OTTO, TRUE, TTF};
+use allsorts::binary::read::ReadScope;
+use allsorts::font_data::FontData;
+use allsorts::tables::{FontTableProvider, OpenTypeData, OpenTypeFont, SfntVersion};
+use allsorts::woff::WoffFont;
+use proptest::prelude::*;
 
 pub struct C10;
+
+#[derive(Clone, Copy, Debug, PartialEq)]
+pub enum Kind {
+    Sfnt,
+    Ttc,
+    Woff,
+}
+
+#[derive(Clone, Debug)]
+pub struct BlobGen {
+    pub tag: Tag,
+    pub same_tag_as_prev: bool,
+    pub content: u8,
+    pub len: usize,
+    pub seed: u64,
+    /// address as a sub-range of the nearest earlier plain blob: (start pick, length pick)
+    pub sub: Option<(u32, u32)>,
+}
+
+#[derive(Clone, Debug)]
+pub struct MemberGen {
+    pub flavour: u32,
+    /// per pool blob (cyclic): selected if < 160
+    pub picks: Vec<u8>,
+}
+
+#[derive(Clone, Debug)]
+pub struct Case {
+    pub kind: Kind,
+    pub pool: Vec<BlobGen>,
+    pub members: Vec<MemberGen>,
+    pub layout: SfntLayout,
+    pub woff: WoffLayout,
+    pub probe_tags: Vec<u32>,
+}
+
+const KNOWN: [&Tag; 24] = [
+    b"cmap", b"glyf", b"head", b"hhea", b"hmtx", b"loca", b"maxp", b"name", b"post", b"OS/2", b"CFF ", b"cvt ",
+    b"fpgm", b"prep", b"GDEF", b"GSUB", b"GPOS", b"kern", b"DSIG", b"gasp", b"CFF2", b"fvar", b"gvar", b"BASE",
+];
+
+fn tag_strategy() -> impl Strategy<Value = Tag> {
+    prop_oneof![
+        6 => (0usize..KNOWN.len()).prop_map(|i| *KNOWN[i]),
+        2 => proptest::array::uniform4(0x20u8..0x7F),
+        // one byte away from a known tag (prefix / suffix / case collisions)
+        2 => (0usize..KNOWN.len(), 0usize..4, 0x20u8..0x7F).prop_map(|(i, p, b)| {
+            let mut t = *KNOWN[i];
+            t[p] = b;
+            t
+        }),
+    ]
+}
+
+fn len_strategy() -> impl Strategy<Value = usize> {
+    prop_oneof![
+        2 => Just(0usize),
+        3 => 1usize..4,
+        5 => 4usize..64,
+        4 => 64usize..600,
+        2 => 600usize..3001,
+    ]
+}
+
+fn blob_strategy() -> impl Strategy<Value = BlobGen> {
+    (
+        tag_strategy(),
+        proptest::bool::weighted(0.12),
+        0u8..7,
+        len_strategy(),
+        any::<u64>(),
+        proptest::option::weighted(0.12, (any::<u32>(), any::<u32>())),
+    )
+        .prop_map(|(tag, same_tag_as_prev, content, len, seed, sub)| BlobGen {
+            tag,
+            same_tag_as_prev,
+            content,
+            len,
+            seed,
+            sub,
+        })
+}
+
+fn flavour_strategy() -> impl Strategy<Value = u32> {
+    prop_oneof![3 => Just(TTF), 2 => Just(OTTO), 1 => Just(TRUE)]
+}
+
+fn order_strategy() -> impl Strategy<Value = DataOrder> {
+    prop_oneof![3 => Just(DataOrder::Directory), 1 => Just(DataOrder::Reverse), 3 => Just(DataOrder::Keyed)]
+}
+
+fn gaps_strategy() -> impl Strategy<Value = Vec<u8>> {
+    prop_oneof![
+        5 => Just(Vec::new()),
+        3 => proptest::collection::vec(prop_oneof![3 => Just(0u8), 2 => 1u8..9, 1 => Just(4u8), 1 => 9u8..200], 1..6),
+    ]
+}
+
+fn sfnt_layout_strategy() -> impl Strategy<Value = SfntLayout> {
+    (
+        (
+            proptest::bool::weighted(0.72),
+            proptest::collection::vec(any::<u32>(), 1..13),
+            order_strategy(),
+            proptest::collection::vec(any::<u32>(), 1..20),
+            gaps_strategy(),
+            prop_oneof![4 => Just(0u8), 1 => any::<u8>()],
+        ),
+        (
+            proptest::bool::weighted(0.8),
+            proptest::collection::vec(proptest::bool::weighted(0.7), 1..6),
+            proptest::bool::weighted(0.6),
+            proptest::bool::weighted(0.5),
+            proptest::bool::weighted(0.5),
+            prop_oneof![Just(1u16), Just(2u16)],
+            prop_oneof![
+                2 => Just((0u32, 0u32, 0u32)),
+                1 => (any::<u32>(), any::<u32>()).prop_map(|(l, o)| (0x44534947u32, l, o)),
+            ],
+            prop_oneof![4 => Just(0u8), 1 => 1u8..40],
+        ),
+    )
+        .prop_map(
+            |(
+                (sorted_dir, dir_keys, order, chunk_keys, gaps, gap_fill),
+                (aligned, store_once, use_subranges, merge_identical, dirs_first, ttc_version, dsig, trailing),
+            )| SfntLayout {
+                sorted_dir,
+                dir_keys,
+                order,
+                chunk_keys,
+                gaps,
+                gap_fill,
+                aligned,
+                store_once,
+                use_subranges,
+                merge_identical,
+                dirs_first,
+                ttc_version,
+                dsig,
+                trailing,
+            },
+        )
+}
+
+fn woff_layout_strategy() -> impl Strategy<Value = WoffLayout> {
+    let comp = prop_oneof![
+        2 => Just(Comp::Stored),
+        5 => (0u32..10).prop_map(Comp::Deflate),
+        1 => Just(Comp::Deflate(9)),
+    ];
+    (
+        (
+            proptest::collection::vec(comp, 1..13),
+            order_strategy(),
+            proptest::collection::vec(any::<u32>(), 1..13),
+            proptest::option::weighted(0.3, (1usize..400, any::<u64>(), 0u32..10)),
+            proptest::option::weighted(0.3, (0usize..60, any::<u64>())),
+            (any::<u16>(), any::<u16>()),
+        ),
+        (
+            proptest::bool::weighted(0.85),
+            proptest::collection::vec(any::<u32>(), 1..13),
+            proptest::bool::weighted(0.88),
+            prop_oneof![8 => Just(Vec::new()), 1 => proptest::collection::vec(0u8..12, 1..5)],
+            prop_oneof![2 => Just(0u8), 1 => any::<u8>()],
+        ),
+    )
+        .prop_map(|((comp, order, chunk_keys, meta, private, version), (sorted_dir, dir_keys, aligned, gaps, gap_fill))| {
+            WoffLayout {
+                comp,
+                order,
+                chunk_keys,
+                meta: meta.map(|(len, seed, level)| (content(3, len, seed), level)),
+                private: private.map(|(len, seed)| content(0, len, seed)),
+                version,
+                sorted_dir,
+                dir_keys,
+                aligned,
+                gaps,
+                gap_fill,
+            }
+        })
+}
+
+pub fn case_strategy(kind: Kind) -> impl Strategy<Value = Case> {
+    let nmem = match kind {
+        Kind::Ttc => 1usize..5,
+        _ => 1usize..2,
+    };
+    let npool = match kind {
+        Kind::Ttc => 1usize..17,
+        _ => 0usize..15,
+    };
+    (
+        proptest::collection::vec(blob_strategy(), npool),
+        proptest::collection::vec(
+            (flavour_strategy(), proptest::collection::vec(any::<u8>(), 1..17))
+                .prop_map(|(flavour, picks)| MemberGen { flavour, picks }),
+            nmem,
+        ),
+        sfnt_layout_strategy(),
+        woff_layout_strategy(),
+        proptest::collection::vec(any::<u32>(), 0..4),
+    )
+        .prop_map(move |(pool, members, layout, woff, probe_tags)| Case {
+            kind,
+            pool,
+            members,
+            layout,
+            woff,
+            probe_tags,
+        })
+}
+
+/// deterministic table content of a given flavour (0 random, 1 zeros, 2 short period, 3 text,
+/// 4 sparse, 5 container magic in front, 6 long period)
+pub fn content(kind: u8, len: usize, seed: u64) -> Vec<u8> {
+    let mut out = Vec::with_capacity(len);
+    let mut s = seed;
+    let mut next = || {
+        s = mix64(s);
+        s
+    };
+    match kind {
+        1 => out.resize(len, 0),
+        2 | 6 => {
+            let period = if kind == 2 { 1 + (next() % 8) as usize } else { 9 + (next() % 120) as usize };
+            let pat: Vec<u8> = (0..period).map(|_| next() as u8).collect();
+            for i in 0..len {
+                out.push(pat[i % period]);
+            }
+        }
+        3 => {
+            const WORDS: [&str; 8] = ["<metadata ", "version=\"1.0\">", "glyph", " the ", "font", "</x>", "\n", "é"];
+            while out.len() < len {
+                out.extend_from_slice(WORDS[(next() % 8) as usize].as_bytes());
+            }
+            out.truncate(len);
+            // keep it valid UTF-8 (the metadata block is read into a String)
+            while std::str::from_utf8(&out).is_err() {
+                out.pop();
+            }
+            while out.len() < len {
+                out.push(b' ');
+            }
+        }
+        4 => {
+            out.resize(len, 0);
+            for i in 0..len {
+                if next() % 11 == 0 {
+                    out[i] = next() as u8;
+                }
+            }
+        }
+        _ => {
+            while out.len() < len {
+                let v = next().to_le_bytes();
+                out.extend_from_slice(&v);
+            }
+            out.truncate(len);
+            if kind == 5 && len >= 4 {
+                let magic: [&[u8; 4]; 5] = [b"wOFF", b"ttcf", b"OTTO", &[0, 1, 0, 0], b"wOF2"];
+                out[..4].copy_from_slice(magic[(seed % 5) as usize]);
+            }
+        }
+    }
+    out
+}
+
+/// resolve the generated case into the container model
+pub fn build_model(case: &Case) -> Model {
+    let mut pool: Vec<Blob> = Vec::new();
+    for (i, g) in case.pool.iter().enumerate() {
+        let tag = if g.same_tag_as_prev && i > 0 { pool[i - 1].tag } else { g.tag };
+        let mut blob = Blob { tag, data: Vec::new(), within: None };
+        let src = (0..i).rev().find(|&k| pool[k].within.is_none() && !pool[k].data.is_empty());
+        match (g.sub, src) {
+            (Some((a, b)), Some(src)) => {
+                let sl = pool[src].data.len();
+                let start = pick(sl + 1, a);
+                let l = pick(sl - start + 1, b);
+                blob.data = pool[src].data[start..start + l].to_vec();
+                blob.within = Some((src, start));
+            }
+            _ => blob.data = content(g.content, g.len, g.seed),
+        }
+        pool.push(blob);
+    }
+    let mut members = Vec::new();
+    for m in &case.members {
+        let mut tables: Vec<usize> = Vec::new();
+        for b in 0..pool.len() {
+            let p = m.picks[b % m.picks.len()];
+            if p < 160 && tables.len() < 12 && !tables.iter().any(|&t| pool[t].tag == pool[b].tag) {
+                tables.push(b);
+            }
+        }
+        members.push(Member { flavour: m.flavour, tables });
+    }
+    Model { pool, members }
+}
+
+fn fail(sig: &str, msg: String) -> Fail {
+    Fail::new(format!("C10:{}", sig), msg)
+}
+
+fn t32(t: &Tag) -> u32 {
+    u32::from_be_bytes(*t)
+}
+
+fn tag_str(t: u32) -> String {
+    let b = t.to_be_bytes();
+    if b.iter().all(|c| (0x20..0x7F).contains(c)) {
+        format!("'{}'", String::from_utf8_lossy(&b))
+    } else {
+        format!("0x{:08X}", t)
+    }
+}
+
+/// tags that are NOT stored in the member: every other tag of the file, one-byte neighbours of
+/// the stored tags, numeric neighbours, extremes and the generated random tags
+fn absent_probes(model: &Model, m: usize, extra: &[u32]) -> Vec<u32> {
+    let stored: Vec<u32> = model.members[m].tables.iter().map(|&b| t32(&model.pool[b].tag)).collect();
+    let mut v: Vec<u32> = Vec::new();
+    for b in &model.pool {
+        v.push(t32(&b.tag));
+    }
+    for (k, s) in stored.iter().enumerate() {
+        if k < 6 {
+            let t = s.to_be_bytes();
+            v.push(u32::from_be_bytes([t[0], t[1], t[2], t[3] ^ 0x01]));
+            v.push(u32::from_be_bytes([t[0] ^ 0x20, t[1], t[2], t[3]]));
+            v.push(u32::from_be_bytes([t[0], t[1], t[2], 0x20]));
+            v.push(u32::from_be_bytes([t[3], t[2], t[1], t[0]]));
+            v.push(s.wrapping_add(1));
+            v.push(s.wrapping_sub(1));
+            v.push(s & 0xFFFF_0000);
+        }
+    }
+    v.extend_from_slice(&[0, u32::MAX, 0x0001_0000, OTTO, TTCF, t32(b"head")]);
+    v.extend_from_slice(extra);
+    v.sort();
+    v.dedup();
+    v.retain(|t| !stored.contains(t));
+    v
+}
+
+/// Checks every observable of a table provider against the stored tables of one font.
+/// `strict == false` (directory not in the order the container format requires, or data blocks
+/// that break its alignment/padding rules): a reader may fail to find a table, so only "no wrong
+/// data" is asserted: any data returned for a tag is that tag's data.
+fn check_provider<P: FontTableProvider + SfntVersion>(
+    p: &P,
+    who: &str,
+    flavour: u32,
+    stored: &[(Tag, &[u8])],
+    absent: &[u32],
+    strict: bool,
+    rec: &mut Rec,
+) -> CaseResult {
+    if p.sfnt_version() != flavour {
+        return Err(fail("flavour", format!("{}: sfnt_version 0x{:08X}, stored flavour 0x{:08X}", who, p.sfnt_version(), flavour)));
+    }
+    let mut evals = 0u64;
+    if strict {
+        match p.table_tags() {
+            Some(mut got) => {
+                let mut want: Vec<u32> = stored.iter().map(|t| t32(&t.0)).collect();
+                got.sort();
+                want.sort();
+                if got != want {
+                    return Err(fail(
+                        "table-tags",
+                        format!("{}: table_tags {:?}, stored {:?}", who, got.iter().map(|t| tag_str(*t)).collect::<Vec<_>>(), want.iter().map(|t| tag_str(*t)).collect::<Vec<_>>()),
+                    ));
+                }
+            }
+            None => return Err(fail("table-tags-none", format!("{}: table_tags() is None", who))),
+        }
+    }
+    for (tag, data) in stored {
+        evals += 1;
+        let t = t32(tag);
+        let got = p.table_data(t);
+        match &got {
+            Ok(Some(d)) => {
+                if &d[..] != *data {
+                    return Err(fail(
+                        "wrong-data",
+                        format!("{}: table_data({}) returned {} bytes that differ from the {} stored bytes (first difference at {:?})",
+                            who, tag_str(t), d.len(), data.len(), d.iter().zip(data.iter()).position(|(a, b)| a != b)),
+                    ));
+                }
+            }
+            Ok(None) if strict => return Err(fail("stored-table-absent", format!("{}: table_data({}) is None for a stored table of {} bytes", who, tag_str(t), data.len()))),
+            Err(e) if strict => return Err(fail("stored-table-err", format!("{}: table_data({}) failed with {:?} for a stored table of {} bytes", who, tag_str(t), e, data.len()))),
+            _ => rec.class("lenient:table-not-returned"),
+        }
+        match p.read_table_data(t) {
+            Ok(d) => {
+                if &d[..] != *data {
+                    return Err(fail("wrong-data", format!("{}: read_table_data({}) differs from the stored bytes", who, tag_str(t))));
+                }
+            }
+            Err(e) if strict => return Err(fail("stored-table-err", format!("{}: read_table_data({}) failed with {:?}", who, tag_str(t), e))),
+            Err(_) => {}
+        }
+        if strict && !p.has_table(t) {
+            return Err(fail("has-table-false", format!("{}: has_table({}) is false for a stored table", who, tag_str(t))));
+        }
+    }
+    for &t in absent {
+        evals += 1;
+        match p.table_data(t) {
+            Ok(None) => {}
+            Ok(Some(d)) => {
+                return Err(fail("absent-table-data", format!("{}: table_data({}) returned {} bytes for a tag that is not stored in this font", who, tag_str(t), d.len())))
+            }
+            Err(e) if strict => return Err(fail("absent-table-err", format!("{}: table_data({}) for an absent tag failed with {:?} instead of reporting absence", who, tag_str(t), e))),
+            Err(_) => {}
+        }
+        if let Ok(d) = p.read_table_data(t) {
+            return Err(fail("absent-table-data", format!("{}: read_table_data({}) returned {} bytes for an absent tag", who, tag_str(t), d.len())));
+        }
+        if strict && p.has_table(t) {
+            return Err(fail("absent-has-table", format!("{}: has_table({}) is true for a tag that is not stored", who, tag_str(t))));
+        }
+    }
+    rec.evaluations(evals);
+    Ok(())
+}
+
+pub fn check_case(case: &Case, rec: &mut Rec) -> CaseResult {
+    let model = build_model(case);
+    match case.kind {
+        Kind::Sfnt | Kind::Ttc => check_sfnt(case, &model, rec),
+        Kind::Woff => check_woff(case, &model, rec),
+    }
+}
+
+fn classify_model(model: &Model, rec: &mut Rec) -> (usize, bool) {
+    let max_tables = model.members.iter().map(|m| m.tables.len()).max().unwrap_or(0);
+    let zero_len = model.members.iter().any(|m| m.tables.iter().any(|&b| model.pool[b].data.is_empty()));
+    rec.class_if(zero_len, "zero-length-table");
+    rec.class_if(max_tables == 0, "tables:0");
+    rec.class_if(max_tables == 1, "tables:1");
+    rec.class_if((2..=4).contains(&max_tables), "tables:2-4");
+    rec.class_if(max_tables >= 5, "tables:5-12");
+    // same tag, different bytes in different members
+    let mut same_tag_diff = false;
+    for (i, a) in model.members.iter().enumerate() {
+        for b in model.members.iter().skip(i + 1) {
+            for &x in &a.tables {
+                for &y in &b.tables {
+                    if x != y && model.pool[x].tag == model.pool[y].tag && model.pool[x].data != model.pool[y].data {
+                        same_tag_diff = true;
+                    }
+                }
+            }
+        }
+    }
+    rec.class_if(same_tag_diff, "members:same-tag-different-table");
+    (max_tables, zero_len)
+}
+
+fn check_sfnt(case: &Case, model: &Model, rec: &mut Rec) -> CaseResult {
+    let ttc = case.kind == Kind::Ttc;
+    let enc = encode_sfnt(model, &case.layout, ttc);
+    let bytes = &enc.bytes;
+    rec.artefact("file", bytes);
+    rec.hash_bytes(bytes);
+    let f = &enc.facts;
+    // the directory order and the alignment/padding rules are requirements of the format; outside
+    // them only "no wrong data" is asserted
+    let strict = f.dir_sorted && f.unaligned_tables == 0 && f.unaligned_dirs == 0 && !f.nonzero_fill;
+    let nm = model.members.len();
+
+    let scope = ReadScope::new(bytes);
+    let fd = scope
+        .read::<FontData<'_>>()
+        .map_err(|e| fail("read-err", format!("FontData::read failed on a generated {:?}: {:?}", case.kind, e)))?;
+    if !matches!(fd, FontData::OpenType(_)) {
+        return Err(fail("dispatch", "FontData::read did not dispatch an sfnt/ttcf file to OpenTypeFont".into()));
+    }
+    for m in 0..nm {
+        let stored = model.member_tables(m);
+        let absent = absent_probes(model, m, &case.probe_tags);
+        let who = format!("member {} of {}", m, nm);
+        let p = match fd.table_provider(m) {
+            Ok(p) => p,
+            Err(e) if !strict => {
+                let _ = e;
+                rec.class("lenient:provider-err");
+                continue;
+            }
+            Err(e) => return Err(fail("provider-err", format!("{}: table_provider failed: {:?}", who, e))),
+        };
+        check_provider(&p, &who, model.members[m].flavour, &stored, &absent, strict, rec)?;
+    }
+    // member index beyond the end of a collection
+    if ttc {
+        for idx in [nm, nm + 1, nm + 7, 255, 256, 65535, 65536, usize::MAX / 4, usize::MAX] {
+            if idx < nm {
+                continue;
+            }
+            if fd.table_provider(idx).is_ok() {
+                return Err(fail("ttc-index-beyond-end", format!("table_provider({}) succeeded on a collection of {} fonts", idx, nm)));
+            }
+        }
+    }
+
+    // ---- lower-level readers
+    let otf = scope
+        .read::<OpenTypeFont<'_>>()
+        .map_err(|e| fail("read-err", format!("OpenTypeFont::read failed: {:?}", e)))?;
+    match (&otf.data, ttc) {
+        (OpenTypeData::Single(_), false) => {}
+        (OpenTypeData::Collection(h), true) => {
+            if h.major_version != case.layout.ttc_version || h.offset_tables.len() != nm {
+                return Err(fail("ttc-header", format!("TTCHeader version {} / {} fonts; stored version {} / {} fonts", h.major_version, h.offset_tables.len(), case.layout.ttc_version, nm)));
+            }
+            for (m, o) in h.offset_tables.iter().enumerate() {
+                if o as usize != enc.dir_at[m] {
+                    return Err(fail("ttc-header", format!("offset table {} at {}, stored at {}", m, o, enc.dir_at[m])));
+                }
+            }
+        }
+        _ => return Err(fail("dispatch", "single font / collection confusion in OpenTypeFont::read".into())),
+    }
+    for m in 0..nm {
+        let ot = match otf.offset_table(m) {
+            Ok(ot) => ot,
+            Err(_) if !strict => continue,
+            Err(e) => return Err(fail("provider-err", format!("offset_table({}) failed: {:?}", m, e))),
+        };
+        let recs = &enc.records[m];
+        let (sr, es, rs) = search_fields(recs.len() as u16, 16);
+        if ot.sfnt_version != model.members[m].flavour
+            || ot.table_records.len() != recs.len()
+            || (ot.search_range, ot.entry_selector, ot.range_shift) != (sr, es, rs)
+        {
+            return Err(fail("offset-table-fields", format!("member {}: header fields differ from the stored ones", m)));
+        }
+        for (k, r) in recs.iter().enumerate() {
+            let got = ot.table_records.get_item(k).map(|x| (x.table_tag, x.checksum, x.offset, x.length));
+            if got != Some((t32(&r.0), r.1, r.2, r.3)) {
+                return Err(fail("table-record-fields", format!("member {} record {}: {:?}, stored {:?}", m, k, got, r)));
+            }
+            match ot.find_table_record(t32(&r.0)) {
+                Some(x) => {
+                    if (x.table_tag, x.checksum, x.offset, x.length) != (t32(&r.0), r.1, r.2, r.3) {
+                        return Err(fail("find-table-record", format!("member {}: find_table_record({}) returned the record of {}", m, tag_str(t32(&r.0)), tag_str(x.table_tag))));
+                    }
+                    let d = x.read_table(&otf.scope);
+                    let want = &bytes[r.2 as usize..(r.2 + r.3) as usize];
+                    match d {
+                        Ok(s) if s.data() == want => {}
+                        Ok(_) => return Err(fail("wrong-data", format!("member {}: TableRecord::read_table({}) differs from the stored bytes", m, tag_str(x.table_tag)))),
+                        Err(e) => return Err(fail("stored-table-err", format!("member {}: TableRecord::read_table({}) failed: {:?}", m, tag_str(x.table_tag), e))),
+                    }
+                }
+                None if strict => return Err(fail("find-table-record", format!("member {}: find_table_record({}) found nothing", m, tag_str(t32(&r.0))))),
+                None => {}
+            }
+            match ot.read_table(&otf.scope, t32(&r.0)) {
+                Ok(Some(s)) => {
+                    if s.data() != &bytes[r.2 as usize..(r.2 + r.3) as usize] {
+                        return Err(fail("wrong-data", format!("member {}: OffsetTable::read_table({}) differs from the stored bytes", m, tag_str(t32(&r.0)))));
+                    }
+                }
+                Ok(None) | Err(_) if !strict => {}
+                other => return Err(fail("stored-table-err", format!("member {}: OffsetTable::read_table({}) gave {:?}", m, tag_str(t32(&r.0)), other.map(|o| o.map(|s| s.data().len()))))),
+            }
+        }
+    }
+    if ttc && otf.offset_table(nm).is_ok() {
+        return Err(fail("ttc-index-beyond-end", format!("offset_table({}) succeeded on a collection of {} fonts", nm, nm)));
+    }
+
+    // ---- classification
+    let (max_tables, _) = classify_model(model, rec);
+    rec.class(if ttc { "container:ttc" } else { "container:sfnt" });
+    rec.class(if strict { "conforming-layout" } else { "lenient-layout" });
+    rec.class_if(!f.dir_sorted, "layout:unsorted-directory");
+    rec.class_if(f.unaligned_tables > 0, "layout:unaligned-table");
+    rec.class_if(f.has_gaps, "layout:gaps");
+    rec.class_if(f.shared_ranges > 0, "layout:shared-range");
+    rec.class_if(f.subranges > 0, "layout:sub-range");
+    rec.class_if(!f.data_in_directory_order, "layout:data-order!=directory-order");
+    if ttc {
+        rec.class(&format!("ttc:v{}:members:{}", case.layout.ttc_version, nm));
+        rec.class_if(f.shared_between_members > 0, "ttc:table-shared-between-members");
+        rec.class_if(f.dir_after_data, "ttc:offset-table-behind-its-data");
+    }
+    let interesting = !f.dir_sorted
+        || f.shared_ranges > 0
+        || f.subranges > 0
+        || f.has_gaps
+        || f.unaligned_tables > 0
+        || !f.data_in_directory_order
+        || (ttc && nm >= 2);
+    rec.set_nontrivial(max_tables >= 2 && interesting);
+    rec.sample(|| {
+        format!(
+            "{:?} {} members, tables {:?}, strict {}, facts {:?}, {} bytes",
+            case.kind,
+            nm,
+            model.members.iter().map(|m| m.tables.iter().map(|&b| format!("{}:{}", tag_str(t32(&model.pool[b].tag)), model.pool[b].data.len())).collect::<Vec<_>>()).collect::<Vec<_>>(),
+            strict,
+            f,
+            bytes.len()
+        )
+    });
+    Ok(())
+}
+
+fn check_woff(case: &Case, model: &Model, rec: &mut Rec) -> CaseResult {
+    let stored = model.member_tables(0);
+    let flavour = model.members[0].flavour;
+    let lay = &case.woff;
+    let enc = encode_woff(flavour, &stored, lay);
+    let bytes = &enc.bytes;
+    rec.artefact("file", bytes);
+    rec.hash_bytes(bytes);
+    let has_gaps = !stored.is_empty() && (0..stored.len()).any(|k| !lay.gaps.is_empty() && lay.gaps[k % lay.gaps.len()] > 0);
+    let dir_sorted = enc.entries.windows(2).all(|w| w[0].0 < w[1].0);
+    let unaligned = enc.entries.iter().any(|e| e.1 % 4 != 0);
+    let strict = dir_sorted && !unaligned && !has_gaps;
+
+    let scope = ReadScope::new(bytes);
+    let fd = scope
+        .read::<FontData<'_>>()
+        .map_err(|e| fail("read-err", format!("FontData::read failed on a generated WOFF: {:?}", e)))?;
+    if !matches!(fd, FontData::Woff(_)) {
+        return Err(fail("dispatch", "FontData::read did not dispatch a wOFF file to WoffFont".into()));
+    }
+    let absent = absent_probes(model, 0, &case.probe_tags);
+    let p = fd
+        .table_provider(0)
+        .map_err(|e| fail("provider-err", format!("table_provider(0) failed on a WOFF: {:?}", e)))?;
+    check_provider(&p, "woff", flavour, &stored, &absent, strict, rec)?;
+
+    // ---- WoffFont directly
+    let wf = scope
+        .read::<WoffFont<'_>>()
+        .map_err(|e| fail("read-err", format!("WoffFont::read failed: {:?}", e)))?;
+    check_provider(&wf, "WoffFont", flavour, &stored, &absent, strict, rec)?;
+    let h = &wf.woff_header;
+    if h.flavor != flavour
+        || h.length as usize != bytes.len()
+        || h.num_tables as usize != stored.len()
+        || h.total_sfnt_size != enc.total_sfnt_size
+        || (h.meta_offset, h.meta_length, h.meta_orig_length) != enc.meta_at
+        || (h.priv_offset, h.priv_length) != enc.priv_at
+    {
+        return Err(fail("woff-header-fields", format!("header {:?} differs from the stored fields", h)));
+    }
+    for (k, e) in enc.entries.iter().enumerate() {
+        let got = wf.table_directory.get_item(k).map(|x| (x.tag, x.offset, x.comp_length, x.orig_length, x.orig_checksum));
+        if got != Some((t32(&e.0), e.1, e.2, e.3, e.4)) {
+            return Err(fail("woff-entry-fields", format!("entry {}: {:?}, stored {:?}", k, got, e)));
+        }
+        if let Some(x) = wf.find_table_directory_entry(t32(&e.0)) {
+            if x.tag != t32(&e.0) {
+                return Err(fail("find-table-record", format!("find_table_directory_entry({}) returned the entry of {}", tag_str(t32(&e.0)), tag_str(x.tag))));
+            }
+        } else if strict {
+            return Err(fail("find-table-record", format!("find_table_directory_entry({}) found nothing", tag_str(t32(&e.0)))));
+        }
+    }
+    // extended metadata: what is returned must be the stored document
+    match (&lay.meta, wf.extended_metadata()) {
+        (Some((xml, _)), Ok(Some(s))) => {
+            if s.as_bytes() != &xml[..] {
+                return Err(fail("woff-metadata", "extended_metadata() differs from the stored document".into()));
+            }
+        }
+        (None, Ok(Some(s))) => return Err(fail("woff-metadata", format!("extended_metadata() returned {} bytes, none stored", s.len()))),
+        (Some((xml, _)), Ok(None)) if !xml.is_empty() => return Err(fail("woff-metadata", "extended_metadata() is None for a stored document".into())),
+        (Some(_), Err(e)) => return Err(fail("woff-metadata", format!("extended_metadata() failed: {:?}", e))),
+        _ => {}
+    }
+
+    // ---- classification
+    let (max_tables, _) = classify_model(model, rec);
+    let ndef = enc.deflated.iter().filter(|d| **d).count();
+    rec.class("container:woff");
+    rec.class(if strict { "conforming-layout" } else { "lenient-layout" });
+    rec.class(if ndef == 0 {
+        "woff:all-stored"
+    } else if ndef == stored.len() {
+        "woff:all-deflated"
+    } else {
+        "woff:mixed-deflated-stored"
+    });
+    rec.class_if(enc.fell_back > 0, "woff:deflate-not-smaller->stored");
+    rec.class_if(lay.meta.is_some(), "woff:metadata");
+    rec.class_if(enc.priv_at.1 > 0, "woff:private");
+    rec.class_if(!dir_sorted, "layout:unsorted-directory");
+    rec.class_if(unaligned, "layout:unaligned-table");
+    rec.class_if(has_gaps, "layout:gaps");
+    rec.set_nontrivial(max_tables >= 2 && (ndef > 0 || !dir_sorted));
+    rec.sample(|| {
+        format!(
+            "Woff flavour 0x{:08X}, tables {:?}, deflated {:?}, strict {}, meta {:?} priv {:?}, {} bytes",
+            flavour,
+            stored.iter().map(|t| format!("{}:{}", tag_str(t32(&t.0)), t.1.len())).collect::<Vec<_>>(),
+            enc.deflated,
+            strict,
+            enc.meta_at,
+            enc.priv_at,
+            bytes.len()
+        )
+    });
+    Ok(())
+}
+
+/// WOFF2 fixtures: a member index beyond the end of a collection is an error, not a panic.
+fn check_woff2_fixture(i: u64, rec: &mut Rec) -> CaseResult {
+    let files = fixtures::list("fonts/woff2", &["woff2"], 1 << 20);
+    let Some(rel) = files.get(i as usize) else {
+        return Ok(());
+    };
+    let Some(bytes) = fixtures::read(rel) else {
+        return Ok(());
+    };
+    let fd = match ReadScope::new(&bytes).read::<FontData<'_>>() {
+        Ok(fd) => fd,
+        Err(_) => return Ok(()),
+    };
+    let FontData::Woff2(w) = &fd else {
+        return Ok(());
+    };
+    let Some(dir) = &w.collection_directory else {
+        rec.class("woff2:single-font (index unspecified, not probed)");
+        return Ok(());
+    };
+    let n = dir.fonts().count();
+    rec.class("woff2:collection");
+    rec.set_nontrivial(true);
+    rec.hash_bytes(&bytes);
+    for idx in 0..n {
+        if let Err(e) = fd.table_provider(idx) {
+            return Err(fail("woff2-member-err", format!("{}: table_provider({}) of {} failed: {:?}", rel, idx, n, e)));
+        }
+    }
+    for idx in [n, n + 1, 255, 65536, usize::MAX] {
+        if fd.table_provider(idx).is_ok() {
+            return Err(fail("woff2-index-beyond-end", format!("{}: table_provider({}) succeeded on a collection of {} fonts", rel, idx, n)));
+        }
+    }
+    rec.evaluations(5 + n as u64);
+    Ok(())
+}
 
 impl Property for C10 {
     fn id(&self) -> &'static str {
         "C10"
     }
     fn rule(&self) -> String {
-        "not implemented".to_string()
+        "proptest generates a container model: a pool of 0-16 table blobs (known tags, arbitrary printable tags, tags one byte away from known ones, repeated tags; \
+         lengths 0-3000 biased to 0, 1-3 and non-multiples of 4; random / zero / periodic / text / sparse content; some blobs are sub-ranges of others) and 1 (sfnt, WOFF) or 1-4 (TTC) member fonts \
+         selecting up to 12 blobs with unique tags and a flavour in {0x00010000, OTTO, true}. My encoders (fontgen::container) lay it out with free choices: directory sorted or permuted, data in any order, gaps, \
+         unaligned data, shared byte ranges and sub-ranges, TTC v1/v2 with offset tables anywhere and tables shared or duplicated between members, WOFF 1.0 with per-table zlib level 0-9 or stored \
+         (always stored when deflate is not smaller), metadata and private blocks. For every member and every stored tag table_data/read_table_data must equal the stored bytes, has_table/table_tags/sfnt_version \
+         must match, absent tags (tags of other members, one-byte and numeric neighbours, extremes) must report absence, a member index >= collection size must be Err; the lower-level OpenTypeFont/OffsetTable/TableRecord/WoffFont \
+         readers are checked the same way. Layouts that break a format rule a reader may rely on (unsorted directory, unaligned blocks, non-zero filler) are checked leniently: no panic and no wrong data. \
+         Non-trivial = a font with >= 2 tables and (>= 1 deflated table, or a collection of >= 2 members, or an unsorted directory, or a non-canonical data layout: order != directory order, gaps, unaligned, shared range or sub-range); distinct by hash of the file bytes."
+            .to_string()
     }
-    fn run(&self, _ctx: &mut Ctx) {}
+    fn assumptions(&self) -> Vec<String> {
+        vec![
+            "table_provider(i > 0) on a single-font sfnt or WOFF is unspecified and not probed".into(),
+            "flate2 (zlib backend, the one the library is built with by default) is trusted as the deflate encoder of the generator".into(),
+            "the second flate2 backend (rust) named by the property's quantifier is not covered: it needs a second harness build with other cargo features".into(),
+        ]
+    }
+    fn run(&self, ctx: &mut Ctx) {
+        let n = ctx.cases(180_000, 3_000_000);
+        ctx.section("sfnt", n, case_strategy(Kind::Sfnt), |c, rec| check_case(c, rec));
+        let n = ctx.cases(150_000, 2_500_000);
+        ctx.section("ttc", n, case_strategy(Kind::Ttc), |c, rec| check_case(c, rec));
+        let n = ctx.cases(180_000, 3_000_000);
+        ctx.section("woff", n, case_strategy(Kind::Woff), |c, rec| check_case(c, rec));
+        let files = fixtures::list("fonts/woff2", &["woff2"], 1 << 20).len() as u64;
+        ctx.enumerate("woff2-collection-index", files, true, |i, rec| check_woff2_fixture(i, rec));
+    }
 }
